@@ -18,7 +18,8 @@ RULE = ("Occupation lists (0-8 modes, 0-5 photons per mode, ints only), two furt
         "values sit at the herald modes, unit conversions invert each other, seeded random unitaries / "
         "permutations are valid and reproducible - also after the caller has overwritten an earlier result in place. "
         "Non-trivial = >= 2 modes and >= 1 photon, or a herald dict with "
-        ">= 2 keys not in ascending order; distinct = case JSON.")
+        ">= 2 keys not in ascending order; distinct = case JSON."
+        " Augmented operators applied through an alias must leave the state object alone; seeds are also given as float / numpy integer / numpy float twins; random_unitary also for N = 1 and 20.")
 ASSUMPTIONS = ["State(list) keeps the caller's list object; mutating that list is outside 'through the API'",
                "occupations are Python or numpy integers (no bools / floats)"]
 
